@@ -140,6 +140,9 @@ func (st *State) doCall(instr *ssa.Call, c *ssa.CallCommon, fnv Value, args []Va
 			st.u.beforeHit[key] = true
 			for _, bc := range cs {
 				env := st.newEnv(fr, nil)
+				for ai := range args {
+					env.vars[fmt.Sprintf("arg%d", ai)] = args[ai] // the call's arguments (receiver first)
+				}
 				t := env.evalBool(bc.E)
 				st.assumeAll(env.defs)
 				st.u.addObl(st, "assert", "before "+key+"/"+clauseName(bc), pos, t, false)
